@@ -101,6 +101,9 @@ func (p c14) checkValue(c *fw.Ctx, req Req, want int, drawn int, r interface{ In
 
 func (p c14) one(c *fw.Ctx, req Req, r interface{ Intn(int) int }) {
 	c.Eval()
+	if c.Res().Evals%6 == 0 {
+		poison(req.Fam, false)
+	}
 	inner := req.String()
 	c.Step(func() string { return inner })
 	o := req.call()
@@ -195,7 +198,15 @@ func (p c14) Exec(c *fw.Ctx, u *fw.Unit) {
 			if full == 1 {
 				ab = asciiAB
 			}
-			p.one(c, Req{Fam: "code39", S: randBytes(r, r.Intn(25), ab), I: []int64{int64(r.Intn(2)), full}, Scheme: -1}, r)
+			txt := randBytes(r, r.Intn(25), ab)
+			p.one(c, Req{Fam: "code39", S: txt, I: []int64{int64(r.Intn(2)), full}, Scheme: -1}, r)
+			if i%3 == 0 {
+				// the same text back to back in both modes and both check settings
+				t2 := randBytes(r, 1+r.Intn(12), []byte(refC39))
+				for _, mix := range [][2]int64{{1, 0}, {1, 1}, {0, 1}, {0, 0}, {1, 1}, {1, 0}} {
+					p.one(c, Req{Fam: "code39", S: t2, I: []int64{mix[0], mix[1]}, Scheme: -1}, r)
+				}
+			}
 		}
 	case "cs.c39exh":
 		// every single character and every check value 0..42 at least once
